@@ -182,6 +182,10 @@ func checkFailure(r *Run, twin *Run, ev *Eval, fj *JobRec, m manifest, persisten
 	add := func(oracle, msg string) {
 		out = append(out, Violation{"C06", oracle, desc + ": " + msg, r.Steps})
 	}
+	if r.Class() == "step-budget" {
+		r.Probes["step-budget-exhausted"]++
+		return out
+	}
 	if len(r.ExitCodes) == 0 {
 		add("no-exit", "mrp did not exit: "+r.Class())
 		return out
